@@ -243,7 +243,7 @@ Proof.
   - destruct parent.
     + destruct (find_nd (s_ents s) n) eqn:FP; simpl; auto.
       destruct (e_meta e || is_alias e) eqn:MA; simpl; auto.
-      destruct (dotted_parent c praw); simpl; auto.
+      try unfold dotted_parent.
       apply Inv_add_go; auto. split; [eapply find_nd_In; eauto | apply orb_false_meta; auto].
     + destruct (NFRAG <=? frag); simpl; auto.
       destruct nm as [|c0 rest]; [apply Inv_add_go; simpl; auto|].
@@ -263,7 +263,7 @@ Proof.
   destruct parent.
   - destruct (find_nd (s_ents s) n) eqn:FP; simpl; auto.
     destruct (e_meta e || is_alias e) eqn:MA; simpl; auto.
-    destruct (dotted_parent c praw); simpl; auto.
+    try unfold dotted_parent.
     apply Inv_alias_go; auto. split; [eapply find_nd_In; eauto | apply orb_false_meta; auto].
   - destruct nm as [|c0 rest]; [apply Inv_alias_go; simpl; auto|].
     destruct (first_slash rest) as [[pre0 sb]|]; [|apply Inv_alias_go; simpl; auto].
@@ -577,8 +577,8 @@ Proof.
     destruct (G x) as (c1 & c2 & c3 & c4 & _). rewrite c1, c3, c4. repeat split; auto.
     unfold l3, h. rewrite <- map_map. apply in_map. auto. }
   assert (FIN : forall l0 nx rf fr tfl, inv l0 nx rf fr tfl ->
-                inv (if fx_delalias c then update_aliases true l0 else l0) nx rf fr tfl).
-  { intros l0 nx rf fr tfl H0. destruct (fx_delalias c); auto.
+                inv (update_aliases true l0) nx rf fr tfl).
+  { intros l0 nx rf fr tfl H0.
     destruct (update_aliases_skel true l0) as (fa & FA & EA). rewrite EA. apply inv_map_skel; auto. }
   destruct (e_meta E) eqn:ME.
   - (* a metafield: unlink from the parent, drop the entry *)
